@@ -582,12 +582,12 @@ pub fn run(ctx: &Ctx) -> Report {
     });
     stats.merge(st);
     if failure.is_none() {
-        let (st, f) = run_proptest(ctx, "bars", 121, ctx.n(300_000, 6_000_000), bar_case_strategy, |c: &BarCase, st| check_bars(c, st, &k));
+        let (st, f) = run_proptest(ctx, "bars", 121, ctx.n(300_000, 40_000_000), bar_case_strategy, |c: &BarCase, st| check_bars(c, st, &k));
         stats.merge(st);
         failure = f;
     }
     if failure.is_none() {
-        let (st, f) = run_proptest(ctx, "bus", 122, ctx.n(60_000, 1_000_000), bus_case_strategy, |c: &BusCase, st| check_bus(c, st));
+        let (st, f) = run_proptest(ctx, "bus", 122, ctx.n(60_000, 8_000_000), bus_case_strategy, |c: &BusCase, st| check_bus(c, st));
         stats.merge(st);
         failure = f;
     }
